@@ -15,6 +15,7 @@ import (
 	"math/big"
 	"strings"
 
+	cppcommon "github.com/microsoft/yardl/tooling/internal/cpp/common"
 	cpptypes "github.com/microsoft/yardl/tooling/internal/cpp/types"
 	mcommon "github.com/microsoft/yardl/tooling/internal/matlab/common"
 	mtypes "github.com/microsoft/yardl/tooling/internal/matlab/types"
@@ -439,10 +440,17 @@ func (g *c08xGen) label(s string) string {
 
 func (g *c08xGen) leaf(literalOK bool) dsl.Expression {
 	k := 0
-	if literalOK {
-		k = verifChoose(g.label("leaf"), 3)
+	if g.lits {
+		k = verifChoose(g.label("leaf"), 5)
+		if !literalOK && (k == 1 || k == 2) {
+			verifAssume(false) // -literal does not exist as a tree
+		}
 	}
 	switch k {
+	case 3: // a field of a nested record
+		return &dsl.MemberAccessExpression{NodeMeta: g.b.meta(), Target: &dsl.MemberAccessExpression{NodeMeta: g.b.meta(), Member: "sub"}, Member: "innerValue"}
+	case 4: // another computed field
+		return &dsl.MemberAccessExpression{NodeMeta: g.b.meta(), Member: "helperField"}
 	case 1:
 		e := &dsl.IntegerLiteralExpression{NodeMeta: g.b.meta()}
 		e.Value = *big.NewInt(-3) // the parser folds `-3` into a negative literal
@@ -460,7 +468,7 @@ func (g *c08xGen) leaf(literalOK bool) dsl.Expression {
 // deep (the other has depth <= 1), which keeps the number of trees in the ten thousands.
 func (g *c08xGen) expr(d int, literalOK bool) dsl.Expression {
 	if d <= 0 {
-		return g.leaf(literalOK && g.lits)
+		return g.leaf(literalOK)
 	}
 	switch verifChoose(g.label("form"), 4) {
 	case 1:
@@ -483,7 +491,7 @@ func (g *c08xGen) expr(d int, literalOK bool) dsl.Expression {
 		r := g.expr(dr, true)
 		return &dsl.BinaryExpression{NodeMeta: g.b.meta(), Left: l, Operator: op, Right: r}
 	}
-	return g.leaf(literalOK && g.lits)
+	return g.leaf(literalOK)
 }
 
 // documented primitive mappings (docs/cpp/language.md, docs/python/language.md, docs/matlab/language.md)
@@ -531,7 +539,11 @@ func c08xSourceTree(e dsl.Expression, fieldName func(string) string, prim map[st
 		return "float:" + t.Value
 	case *dsl.MemberAccessExpression:
 		if t.Target != nil {
-			return "?target"
+			// a field of a nested record value (only fields are generated below a target)
+			return "member:" + fieldName("."+t.Member) + "(" + c08xSourceTree(t.Target, fieldName, prim) + ")"
+		}
+		if t.Kind == dsl.MemberAccessComputedField {
+			return "call(" + fieldName("()"+t.Member) + ")"
 		}
 		return "field:" + fieldName(t.Member)
 	}
@@ -549,7 +561,10 @@ func c08xModel(depth, litDepth int) (*dsl.Environment, *dsl.RecordDefinition, bo
 	for i, n := range c08xFieldNames {
 		fields = append(fields, b.field(n, b.st(c08xFieldTypes[i])))
 	}
+	fields = append(fields, b.field("sub", b.st("Sub")))
 	rec := b.record("Ns", "Rec", nil, fields...)
+	sub := b.record("Ns", "Sub", nil, b.field("innerValue", b.st("double")))
+	helper := &dsl.ComputedField{NodeMeta: b.meta(), Name: "helperField", Expression: &dsl.MemberAccessExpression{NodeMeta: b.meta(), Member: "nb"}}
 	var e dsl.Expression
 	if verifChoose("family", 2) == 0 {
 		e = g.expr(depth, false)
@@ -557,23 +572,43 @@ func c08xModel(depth, litDepth int) (*dsl.Environment, *dsl.RecordDefinition, bo
 		g.lits = true
 		e = g.expr(litDepth, false)
 	}
-	rec.ComputedFields = dsl.ComputedFields{&dsl.ComputedField{NodeMeta: b.meta(), Name: "c", Expression: e}}
-	ns := &dsl.Namespace{Name: "Ns", IsTopLevel: true, TypeDefinitions: dsl.TypeDefinitions{rec}}
+	rec.ComputedFields = dsl.ComputedFields{&dsl.ComputedField{NodeMeta: b.meta(), Name: "c", Expression: e}, helper}
+	ns := &dsl.Namespace{Name: "Ns", IsTopLevel: true, TypeDefinitions: dsl.TypeDefinitions{sub, rec}}
 	env, err := dsl.Validate([]*dsl.Namespace{ns})
 	if err != nil {
 		verifOut("validation-error", err.Error())
 		return nil, nil, false
 	}
-	return env, env.Namespaces[0].TypeDefinitions[0].(*dsl.RecordDefinition), true
+	for _, td := range env.Namespaces[0].TypeDefinitions {
+		if r, ok := td.(*dsl.RecordDefinition); ok && r.Name == "Rec" {
+			return env, r, true
+		}
+	}
+	return nil, nil, false
 }
 
-// C08CppExpr: the C++ emitter.
+// C08ComputedExpr: all three emitters on the same tree.
+func C08ComputedExpr(depth, litDepth int) {
+	env, rec, ok := c08xModel(depth, litDepth)
+	if !ok {
+		verifReach("c08x-rejected")
+		return
+	}
+	c08xCheckCpp(env, rec)
+	c08xCheckScripts(rec)
+}
+
+// C08CppExpr: the C++ emitter alone.
 func C08CppExpr(depth, litDepth int) {
 	env, rec, ok := c08xModel(depth, litDepth)
 	if !ok {
 		verifReach("c08x-rejected")
 		return
 	}
+	c08xCheckCpp(env, rec)
+}
+
+func c08xCheckCpp(env *dsl.Environment, rec *dsl.RecordDefinition) {
 	expr := rec.ComputedFields[0].Expression
 	// the C++ member each yardl field is declared as, read back from the struct in types.h
 	_, _, members, found := c14tReadStruct(cpptypes.VerifWriteNamespaceMembers(env.Namespaces[0]), "Rec")
@@ -581,7 +616,17 @@ func C08CppExpr(depth, litDepth int) {
 	if !found || len(members) != len(rec.Fields) {
 		return
 	}
+	_, _, subMembers, subFound := c14tReadStruct(cpptypes.VerifWriteNamespaceMembers(env.Namespaces[0]), "Sub")
 	fieldName := func(n string) string {
+		if strings.HasPrefix(n, ".") { // member of the nested record
+			if subFound && len(subMembers) == 1 {
+				return subMembers[0]
+			}
+			return "?" + n
+		}
+		if strings.HasPrefix(n, "()") { // a computed field is a member function (docs/cpp/language.md: PascalCased)
+			return "id:" + cppcommon.ComputedFieldIdentifierName(n[2:])
+		}
 		for i, f := range rec.Fields {
 			if f.Name == n {
 				return members[i]
@@ -610,13 +655,17 @@ func c08xStripStatement(text, prefix, suffix string) (string, bool) {
 	return strings.TrimSpace(text[len(prefix) : len(text)-len(suffix)]), true
 }
 
-// C19ScriptExpr: the Python and MATLAB emitters on the same trees.
+// C19ScriptExpr: the Python and MATLAB emitters alone.
 func C19ScriptExpr(depth, litDepth int) {
 	_, rec, ok := c08xModel(depth, litDepth)
 	if !ok {
 		verifReach("c08x-rejected")
 		return
 	}
+	c08xCheckScripts(rec)
+}
+
+func c08xCheckScripts(rec *dsl.RecordDefinition) {
 	expr := rec.ComputedFields[0].Expression
 
 	pyText := pytypes.VerifWriteComputedFieldExpression(expr, "Ns")
@@ -624,7 +673,12 @@ func C19ScriptExpr(depth, litDepth int) {
 	pyExpr, pyForm := c08xStripStatement(pyText, "return ", "")
 	verifAssert("python-body-is-one-return-statement", pyForm && !strings.Contains(pyExpr, "\n"))
 	if pyForm {
-		want := c08xSourceTree(expr, pycommon.FieldIdentifierName, c08xPyPrim)
+		want := c08xSourceTree(expr, func(n string) string {
+			if strings.HasPrefix(n, "()") {
+				return "field:" + pycommon.ComputedFieldIdentifierName(n[2:])
+			}
+			return pycommon.FieldIdentifierName(strings.TrimPrefix(n, "."))
+		}, c08xPyPrim)
 		got, bad, effects := c08xRead(c08xPython, pyExpr)
 		verifOut("source-python", want)
 		verifOut("python-tree", got)
@@ -638,7 +692,12 @@ func C19ScriptExpr(depth, litDepth int) {
 	mExpr, mForm := c08xStripStatement(mText, "res = ", ";\nreturn")
 	verifAssert("matlab-body-is-one-assignment-to-res", mForm && !strings.Contains(mExpr, "\n"))
 	if mForm {
-		want := c08xSourceTree(expr, mcommon.FieldIdentifierName, c08xMatlabPrim)
+		want := c08xSourceTree(expr, func(n string) string {
+			if strings.HasPrefix(n, "()") {
+				return "field:" + mcommon.ComputedFieldIdentifierName(n[2:])
+			}
+			return mcommon.FieldIdentifierName(strings.TrimPrefix(n, "."))
+		}, c08xMatlabPrim)
 		got, bad, effects := c08xRead(c08xMatlab, mExpr)
 		verifOut("source-matlab", want)
 		verifOut("matlab-tree", got)
